@@ -1,8 +1,9 @@
 (* C06 - Seeded results are reproducible under any thread schedule.  Proofs in theories/Sched/SchedProofs.v.
    (partial: the model covers the scheduling logic - pure jobs, draws on the submitting thread, collection in submission order; races inside native
    code and third-party nondeterminism are covered only by the cross-schedule / cross-process comparison of the check.) *)
-From Coq Require Import List Arith Bool Permutation.
+From Coq Require Import String List Arith Bool Permutation.
 From PGA Require Import Sched.Sched Sched.SchedProofs.
+From PGAprops Require Import PoolGen.
 Import ListNotations.
 
 (* FULL (logic part): whatever order the workers execute the submitted jobs in, and however many workers there are, the collected results,
@@ -34,3 +35,19 @@ Proof. exact draws_in_worker_schedule_dependent. Qed.
 Example C06_example :
   pooled nat nat nat (fun s => (s * 2, S s)) (fun a => a + 1) [2; 0; 1] 2 7 3 = ([Some 8; Some 7; Some 9], 5).
 Proof. vm_compute. reflexivity. Qed.
+
+(* ---------------------------------------------------------------------------------------------------------------------------------
+   Tie to the source (re-proved on every run against genprops/PoolGen.v, read from the CURRENT continuum.py by harness/gen_pool.py): the pool
+   section has the shape the schedule-independence theorems assume - every sample is drawn by sampler.sample_from_continuum INSIDE the argument
+   list of p.submit, i.e. by the submitting thread and in submission order; the jobs receive (dissimilarity, continuum) only; results are
+   collected by iterating the list of futures in submission order (not in completion order), for both batches. *)
+Theorem C06_src_pool_section :
+  pool_src =
+  ["with ThreadPoolExecutor(max_workers=os.cpu_count()) as p"%string; "best_alignment_task = p.submit(job, *(dissimilarity, self))"%string;
+   "result_pool = [p.submit(job, *(dissimilarity, sampler.sample_from_continuum)) for _ in range(n_samples)]"%string;
+   "chance_best_alignments: List[Alignment] = []"%string;
+   "chance_disorders: List[float] = []"%string;
+   "best_alignment = best_alignment_task.result()"%string;
+   "for (i, result) in enumerate(result_pool): [chance_best_alignments.append(result.result()); chance_disorders.append(chance_best_alignments[-1].disorder)]"%string;
+   "if precision_level is not None: [if isinstance(precision_level, str): [precision_level = PRECISION_LEVEL[precision_level]]; assert 0 < precision_level < 1.0; variation_coeff = np.std(chance_disorders) / np.mean(chance_disorders); confidence = 1.96; required_samples = np.ceil((variation_coeff * confidence / precision_level) ** 2).astype(np.int32); if required_samples > n_samples: [result_pool = [p.submit(job, *(dissimilarity, sampler.sample_from_continuum)) for _ in range(required_samples - n_samples)]; for (i, result) in enumerate(result_pool): [chance_best_alignments.append(result.result())]]]"%string].
+Proof. reflexivity. Qed.
